@@ -191,3 +191,84 @@ def exclusive_parents(chk, c, rule):
         if any(isinstance(n, ast.Compare) and 'traversal_parent' in norm(n) for n in own_nodes(fi.node)):
             n_readers += 1
     chk.count('functions that choose the traversal list by testing child.traversal_parent', n_readers)
+
+
+ATTACH_METHODS = ('append', 'add', 'extend')
+
+
+def attach_wrappers(ix, modname):
+    """{function name: set(parameter positions)}: module-level functions of `modname` that attach the parameter (hand it
+    to .append/.add/.extend, or to another wrapper) on every normal path from entry to return -- a call of such a
+    function is as good as the attach itself (wrapper summary, Min et al.)."""
+    import ast
+    from ..cfg import cfg_of, ENTRY, EXIT
+    from ..src import own_nodes, norm
+    mod = ix.module(modname)
+    out = {}
+    changed = True
+    rounds = 0
+    while changed and rounds < 4:
+        changed = False
+        rounds += 1
+        for name, fi in sorted(mod.functions.items()):
+            if fi.cls is not None or fi.outer is not None:
+                continue
+            params = [a.arg for a in fi.node.args.args]
+            g = None
+            for i, p in enumerate(params):
+                if i in out.get(name, ()):
+                    continue
+                events = set()
+                for n in own_nodes(fi.node):
+                    if not isinstance(n, ast.Call):
+                        continue
+                    direct = isinstance(n.func, ast.Attribute) and n.func.attr in ATTACH_METHODS and \
+                        any(norm(a) == p for a in n.args) and norm(n.func.value) != p
+                    via = isinstance(n.func, ast.Name) and n.func.id in out and \
+                        any(k < len(n.args) and norm(n.args[k]) == p for k in out[n.func.id])
+                    if direct or via:
+                        g = g or cfg_of(fi)
+                        nid = g.node_for(n)
+                        if nid:
+                            events.add(nid)
+                if not events:
+                    continue
+                rebound = any(isinstance(n, ast.Assign) and any(norm(t) == p for t in n.targets) for n in own_nodes(fi.node))
+                if rebound:
+                    continue
+                reach = g.reach(ENTRY, avoid=events, labels_ok=lambda a, b, lab: lab != 'exc')
+                if EXIT not in reach:
+                    out.setdefault(name, set()).add(i)
+                    changed = True
+    return out
+
+
+def is_attach_call(call, wrappers, value_names):
+    """the call attaches one of `value_names` (normal texts): x.append(v) / x.add(v) / wrapper(.., v, ..)"""
+    import ast
+    from ..src import norm
+    if isinstance(call.func, ast.Attribute) and call.func.attr in ATTACH_METHODS:
+        return any(norm(a) in value_names for a in call.args) and norm(call.func.value) not in value_names
+    if isinstance(call.func, ast.Name) and call.func.id in wrappers:
+        return any(k < len(call.args) and norm(call.args[k]) in value_names for k in wrappers[call.func.id])
+    return False
+
+
+def lazy_creators(c):
+    """qualnames of 'the lazy-creation code': functions every create_element call of which passes the constant
+    traversal_parent=True (the new child goes to the shadow channel), wherever they are defined"""
+    import ast
+    ix, cg, te = c.index, c.cg, c.te
+    ce = ix.func('core.ElementList.create_element')
+    good, bad = set(), set()
+    for fq, sites in cg.sites.items():
+        for s in sites:
+            if s.kind == 'call' and any(t.kind == 'func' and t.func is ce for t in s.targets):
+                t = [t for t in s.targets if t.func is ce][0]
+                b, _, _, _ = te.bind(s.node, t)
+                a = b.get('traversal_parent')
+                if isinstance(a, ast.Constant) and a.value is True:
+                    good.add(fq)
+                else:
+                    bad.add(fq)
+    return good - bad
